@@ -4,7 +4,6 @@
 """
 
 import itertools
-import math
 import random
 
 from cnfgen.formula.cnf import CNF
@@ -38,6 +37,23 @@ def sample_variables(variables, k):
         return list(chosen)
 
 
+def more_than_available(m, n, k, each):
+    """Test whether m is larger than `each` times the number of k-subsets of n elements
+
+The binomial coefficient is computed only as far as needed to tell
+(it may be a huge number, and `math.comb` needs python 3.8)."""
+    if k > n:
+        return m > 0
+    count = each
+    small = min(k, n - k)
+    for i in range(1, small + 1):
+        # count is `each` times the binomial of (n - small + i) over i
+        count = count * (n - small + i) // i
+        if count >= m:
+            return False
+    return m > count
+
+
 def sample_clauses(k, n, m, planted_assignments):
     """Sample m random k-clauses on a set of n variables
 
@@ -49,7 +65,7 @@ If after enough samples we haven't got enough clauses we use dense
 sampling, namely we generare all possible clauses and pick at random
 m of them. This approach always succeeds, but is quite slower and
 wasteful for just few samples."""
-    if m > math.comb(n, k) * 2**k:
+    if more_than_available(m, n, k, 2**k):
         # (before the sparse sampling, which would try 10*m times)
         raise ValueError("Too many clauses requested")
     sampled = set()
